@@ -3,7 +3,8 @@
 stable_pass in /root/.vp/BASELINE.json passes. Exit 0 iff all of them pass."""
 import json, os, subprocess, sys
 env = dict(os.environ, GOFLAGS="-mod=mod", GOPROXY="off", GOSUMDB="off", GOTOOLCHAIN="local")
-p = subprocess.run("cd /repo && go test -json -vet=off -count=1 -timeout 25m ./...", shell=True, env=env,
+repo = sys.argv[1] if len(sys.argv) > 1 else "/repo"
+p = subprocess.run(f"cd {repo} && go test -json -vet=off -count=1 -timeout 25m ./...", shell=True, env=env,
                    stdout=subprocess.PIPE, stderr=subprocess.STDOUT, text=True)
 status = {}
 for line in p.stdout.splitlines():
